@@ -53,6 +53,9 @@ func runC05(r *Run) {
 	if r.NumViolations() == 0 {
 		c05SharedMD(r)
 	}
+	if r.NumViolations() == 0 {
+		c05UnaryTrailerOwner(r)
+	}
 	// concurrent calls whose envelopes are large enough to stay in the transport's hands for a while,
 	// over the websocket (c01c.go): no caller is handed bytes of another call
 	if r.NumViolations() == 0 {
